@@ -146,21 +146,21 @@ Print Assumptions C05_error_rate_is_one_minus_expected_fraction.
 
 (* ---- quick sampler = sampler conditioned and renormalised ---- *)
 (* candidates: the input's modes, the input's photon number (no photon lost),
-   non-negative occupations, max = 1 for threshold detection, post-selection *)
+   non-negative occupations, max <= 1 for threshold detection, post-selection *)
 Theorem C05_quick_sampler_candidates :
   forall ps pc input x,
     length input <> 0 -> Forall (fun v => (0 <= v)%Z) input ->
     (In x (qs_cands ps pc input) <->
      (length x = length input /\ Forall (fun v => (0 <= v)%Z) x /\ zsum x = zsum input /\
-      (pc = true \/ zmax x = 1%Z)) /\ ps x = Ok true).
+      (pc = true \/ (zmax x <= 1)%Z)) /\ ps x = Ok true).
 Proof. exact qs_cands_iff. Qed.
 Print Assumptions C05_quick_sampler_candidates.
 
-(* "max = 1" is "at most one photon per mode" as soon as there is a photon *)
+(* the threshold filter "max <= 1" is "at most one photon per mode", for every
+   state (the vacuum included, fix 3ccdb7f) *)
 Theorem C05_threshold_filter_is_at_most_one_photon_per_mode :
-  forall s, Forall (fun v => (0 <= v)%Z) s -> (1 <= zsum s)%Z ->
-            (zmax s = 1%Z <-> Forall (fun v => (v <= 1)%Z) s).
-Proof. exact zmax_one_iff. Qed.
+  forall s, (zmax s <= 1)%Z <-> Forall (fun v => (v <= 1)%Z) s.
+Proof. exact zmax_le1_iff. Qed.
 Print Assumptions C05_threshold_filter_is_at_most_one_photon_per_mode.
 
 (* the distribution: candidates of positive Sampler probability (heralds
@@ -264,13 +264,36 @@ Theorem C05_quick_sampler_zero_total_is_an_error :
 Proof. exact (fun K o => @quick_sampler_zero_total K o). Qed.
 Print Assumptions C05_quick_sampler_zero_total_is_an_error.
 
-(* recorded: threshold detection on a vacuum input is refused (max(s) == 1) *)
-Theorem C05_quick_sampler_vacuum_threshold_rejected :
+(* regression witness for the defect repaired by 3ccdb7f: with the old filter
+   max(s) == 1 ([qs_candidates_pinned]) a vacuum input with threshold detectors
+   left no candidate (ValueError) although the Sampler accepts it; the repaired
+   filter keeps the vacuum, and the quick sampler then returns a distribution
+   (covered by C05_quick_sampler_is_conditioned_sampler) *)
+Theorem C05_quick_sampler_vacuum_threshold_pinned_refuted :
   forall (K : Type) (o : ops K) eps (U : @mat (K * K)),
     (exists d, sampler_dist o Permanent eps 2 0 U [] [0%Z; 0%Z] = Ok d) /\
-    quick_sampler o eps 2 0 U [] [] (fun _ => Ok true) false [0%Z; 0%Z] = Err ValueError.
-Proof. exact (fun K o => @quick_sampler_vacuum_threshold_rejected K o). Qed.
-Print Assumptions C05_quick_sampler_vacuum_threshold_rejected.
+    qs_candidates_pinned (fun _ => Ok true) false [0%Z; 0%Z] = Err ValueError /\
+    qs_candidates (fun _ => Ok true) false [0%Z; 0%Z] = Ok [[0%Z; 0%Z]].
+Proof. exact (fun K o => @quick_sampler_vacuum_threshold_pinned_refuted K o). Qed.
+Print Assumptions C05_quick_sampler_vacuum_threshold_pinned_refuted.
+
+Theorem C05_quick_sampler_accepts_vacuum_with_threshold_detectors :
+  forall U : @mat C,
+    exists pd, quick_sampler rops 0%R 2 0 U [] [] (fun _ => Ok true) false [0%Z; 0%Z] = Ok pd.
+Proof. exact quick_sampler_vacuum_threshold_accepted. Qed.
+Print Assumptions C05_quick_sampler_accepts_vacuum_with_threshold_detectors.
+
+(* REFUTED on the current tree for `expected` lists with a repeated state: the
+   state is subtracted once per occurrence, so the row error is 1 - 2 p/total
+   instead of one minus the expected fraction 1 - p/total (row [1; 0], listed
+   outputs [x; y], expected [x; x]: -1 instead of 0).  For duplicate-free lists
+   C05_error_rate_is_one_minus_expected_fraction is the property. *)
+Theorem C05_error_rate_duplicate_expected_refuted :
+  forall x y : state, st_eqb x y = false ->
+    an_row_error rops [1; 0]%R [x; y] [x; x] = Some (1 - 1 - 1)%R /\
+    an_row_error rops [1; 0]%R [x; y] [x] = Some (1 - 1)%R.
+Proof. exact error_rate_duplicate_refuted. Qed.
+Print Assumptions C05_error_rate_duplicate_expected_refuted.
 
 (* ---- the hypotheses are satisfiable ---- *)
 Example C05_herald_ok_nonvacuous : herald_ok 3 [(2, 1%Z); (0, 0%Z)].
